@@ -125,6 +125,106 @@ def generate_active_backend(repo=None):
     return out, changed, skipped
 
 
+# ------------------------------------------------------------------- multiprocessing context + abort_everything
+MPC_HEADER = """(* REGENERATED on every run by harness/gen_c17.py from joblib/parallel.py (Parallel.__init__: every assignment to
+   self._backend_kwargs["context"], in source order, with its guard) and joblib/_parallel_backends.py (abort_everything of
+   PoolManagerMixin and LokyBackend: does the reconfiguration pass **self.parallel._backend_kwargs?).  Do not edit.
+   env = DEFAULT_MP_CONTEXT (JOBLIB_START_METHOD, read at import), arg = a multiprocessing context object passed as `backend=`,
+   dflt = mp.get_context(); values are start-method codes. *)
+From Coq Require Import ZArith List Bool.
+Require Import JV.Base.PyPrelude.
+Import ListNotations.
+Open Scope Z_scope.
+
+"""
+
+
+def generate_mp_context(repo=None):
+    import ast
+    repo = repo or common.REPO
+    path = os.path.join(repo, "joblib", "parallel.py")
+    node, _ = translate.find_function(path, "Parallel.__init__")
+    TARGET = "self._backend_kwargs['context']"
+    VAL = {"DEFAULT_MP_CONTEXT": "env", "mp.get_context()": "Some dflt", "backend": "arg"}
+    GUARD = {"DEFAULT_MP_CONTEXT is not None": "(match env with Some _ => true | None => false end)",
+             "hasattr(mp, 'get_context')": "true",
+             "hasattr(backend, 'Pool') and hasattr(backend, 'Lock')": "(match arg with Some _ => true | None => false end)",
+             # earlier branches of the backend chain, for a context object passed as backend: not taken
+             "backend is default_parallel_config['backend'] or backend is None": "(match arg with Some _ => false | None => true end)",
+             "isinstance(backend, ParallelBackendBase)": "false"}
+
+    def stores(stmts):
+        return [st for st in stmts if isinstance(st, ast.Assign) and ast.unparse(st.targets[0]) == TARGET]
+
+    lets = []
+    for st in node.body:
+        if isinstance(st, ast.Assign) and ast.unparse(st.targets[0]) == TARGET:
+            raise translate.TranslateError("translation of Parallel.__init__ (mp context) no longer matches: unguarded store")
+        if not isinstance(st, ast.If):
+            if any(isinstance(n, ast.Assign) and ast.unparse(n.targets[0]) == TARGET for n in ast.walk(st)):
+                raise translate.TranslateError("translation of Parallel.__init__ (mp context) no longer matches: store in %s" % type(st).__name__)
+            continue
+        if not any(isinstance(n, ast.Assign) and ast.unparse(n.targets[0]) == TARGET for n in ast.walk(st)):
+            continue
+        # an if/elif chain: the value of the first branch whose guard holds (branches without a store leave ctx alone)
+        code, cur, closes = "", st, 0
+        while True:
+            g = ast.unparse(cur.test)
+            if g not in GUARD and not any(isinstance(n, ast.Assign) and ast.unparse(n.targets[0]) == TARGET for n in ast.walk(cur)):
+                code += "ctx"      # the rest of the chain never touches the context, whatever its guards are
+                break
+            if g not in GUARD:
+                raise translate.TranslateError("translation of Parallel.__init__ (mp context) no longer matches: guard `%s`" % g)
+            ss = stores(cur.body)
+            nested = [n for b_ in cur.body for n in ast.walk(b_) if isinstance(n, ast.Assign) and ast.unparse(n.targets[0]) == TARGET]
+            if len(nested) != len(ss) or len(ss) > 1:
+                raise translate.TranslateError("translation of Parallel.__init__ (mp context) no longer matches: nested store")
+            if ss:
+                v = ast.unparse(ss[0].value)
+                if v not in VAL:
+                    raise translate.TranslateError("translation of Parallel.__init__ (mp context) no longer matches: value `%s`" % v)
+                val = VAL[v]
+            else:
+                val = "ctx"
+            code += "if %s then %s else " % (GUARD[g], val)
+            if len(cur.orelse) == 1 and isinstance(cur.orelse[0], ast.If):
+                cur = cur.orelse[0]
+                continue
+            if any(isinstance(n, ast.Assign) and ast.unparse(n.targets[0]) == TARGET for b_ in cur.orelse for n in ast.walk(b_)):
+                raise translate.TranslateError("translation of Parallel.__init__ (mp context) no longer matches: store in a final else")
+            code += "ctx"
+            break
+        lets.append("  let ctx := %s in" % code)
+    if len(lets) < 2:
+        raise translate.TranslateError("translation of Parallel.__init__ (mp context) no longer matches: expected the default "
+                                       "block and the context-object branch")
+    # abort_everything: is the pool / executor rebuilt with the object's resolved kwargs?
+    pb = os.path.join(repo, "joblib", "_parallel_backends.py")
+
+    def passes(qual):
+        fn, _ = translate.find_function(pb, qual)
+        calls = [n for n in ast.walk(fn) if isinstance(n, ast.Call) and ast.unparse(n.func) == "self.configure"]
+        if len(calls) != 1:
+            raise translate.TranslateError("translation of %s no longer matches: expected one self.configure(...)" % qual)
+        kws = {k.arg: ast.unparse(k.value) for k in calls[0].keywords}
+        if kws.get("n_jobs") != "self.parallel.n_jobs" or kws.get("parallel") != "self.parallel" or calls[0].args:
+            raise translate.TranslateError("translation of %s no longer matches: configure(n_jobs=self.parallel.n_jobs, "
+                                           "parallel=self.parallel, ...)" % qual)
+        extra = {k: v for k, v in kws.items() if k not in ("n_jobs", "parallel")}
+        if extra == {None: "self.parallel._backend_kwargs"}:
+            return "true"
+        if not extra:
+            return "false"
+        raise translate.TranslateError("translation of %s no longer matches: unexpected configure arguments %s" % (qual, extra))
+    text = MPC_HEADER + (
+        "Definition src_mp_context (env arg : option Z) (dflt : Z) : option Z :=\n  let ctx := None in\n%s\n  ctx.\n\n"
+        "Definition pool_abort_passes_kwargs : bool := %s.\nDefinition loky_abort_passes_kwargs : bool := %s.\n" % (
+            "\n".join(lets), passes("PoolManagerMixin.abort_everything"), passes("LokyBackend.abort_everything")))
+    out = os.path.join(common.COQ, "Gen", "T_mp_context.v")
+    changed = common.write_if_changed(out, text)
+    return out, changed, []
+
+
 def generate(repo=None):
     repo = repo or common.REPO
     path = os.path.join(repo, "joblib", "parallel.py")
@@ -136,6 +236,8 @@ def generate(repo=None):
 
 
 if __name__ == "__main__":
+    print(generate_mp_context())
+    print(open(os.path.join(common.COQ, "Gen", "T_mp_context.v")).read())
     print(generate_active_backend())
     print(open(os.path.join(common.COQ, "Gen", "T_active_backend.v")).read())
     print(generate())
